@@ -244,7 +244,7 @@ Next ==
 Spec == Init /\ [][Next]_vars
 
 Bound == steps <= MaxSteps
-View == <<absVars, implVars>>
+View == <<absVars, implVars, steps>>   \* steps kept: the bound is then exact whatever the order of exploration
 
 (* ---- model-level properties ---- *)
 \* the reliable marker never runs ahead of what is known, and the ack base is exactly the
